@@ -119,10 +119,17 @@ var codecs = []codec{
 			return fmt.Sprintf("%d %s %s", x.PublicKeyParity, hexf(x.PublicKeyBytes), hexf([]byte(x.Username))), x.ToBytes(), true
 		},
 		gen: func(r *vrng) (string, []byte) {
-			ulen := r.pick(1, 3, 8, 100, 219, 220, 221, 222, 223, 250, 255)
+			ulen := r.pick(1, 3, 8, 100, 219, 220, 221, 222, 223, 250, 253)
 			u := make([]byte, ulen)
 			for i := range u {
-				u[i] = "abcXYZ019"[r.intn(9)]
+				u[i] = "abrXYZ019r"[r.intn(10)]
+			}
+			if r.intn(4) == 0 {
+				// names around the RoMON suffix "+r": made of 'r' only, or ending in 'r' after a separator
+				u = []byte([]string{"r", "rrr", "admin.r", "a-rr", "operator", "router", "r.r"}[r.intn(7)])
+			}
+			if r.intn(2) == 0 {
+				u = append(u, "+r"...) // RoMON mode
 			}
 			x := &l4winbox.MessageAuth{Username: string(u), PublicKeyBytes: r.bytes(32, 255), PublicKeyParity: byte(r.intn(2))}
 			for i := range x.PublicKeyBytes {
